@@ -1,0 +1,26 @@
+//go:build verif
+
+package types
+
+import (
+	codectypes "github.com/cosmos/cosmos-sdk/codec/types"
+)
+
+// Verification hook (build tag "verif" only): lets the interface registry unpack the Any nested in
+// MsgClaim / MsgConfirm when a transaction is decoded from bytes, so that harness traces containing
+// oracle claims and confirmations can be replayed through the real FinalizeBlock path.
+
+var (
+	_ codectypes.UnpackInterfacesMessage = (*MsgClaim)(nil)
+	_ codectypes.UnpackInterfacesMessage = (*MsgConfirm)(nil)
+)
+
+func (m *MsgClaim) UnpackInterfaces(unpacker codectypes.AnyUnpacker) error {
+	var claim ExternalClaim
+	return unpacker.UnpackAny(m.Claim, &claim)
+}
+
+func (m *MsgConfirm) UnpackInterfaces(unpacker codectypes.AnyUnpacker) error {
+	var confirm Confirm
+	return unpacker.UnpackAny(m.Confirm, &confirm)
+}
